@@ -484,9 +484,15 @@ def rect_property(case, out):
                     why.append(f"fill: pixel {(r, c)} != source {addressed[(r, c)]}")
                 continue
             if mode in INT_MODES:
-                if int(s) < 0 or int(old[r, c]) < 0:
-                    continue          # the statement speaks of non-negative integer data
-                if int(o) != max(int(s), int(old[r, c])):
+                # zero = undefined: the general clauses hold for every value, the
+                # "larger value is kept" clause is stated for non-negative data
+                if int(s) == 0:
+                    if int(o) != int(old[r, c]):
+                        why.append(f"update: integer pixel {(r, c)} changed although its source is undefined (0)")
+                elif int(old[r, c]) == 0:
+                    if int(o) != int(s):
+                        why.append(f"update: undefined integer pixel {(r, c)} did not get the source value")
+                elif int(s) >= 0 and int(old[r, c]) >= 0 and int(o) != max(int(s), int(old[r, c])):
                     why.append(f"update: integer pixel {(r, c)} is not the larger value")
                 continue
             if px_undefined(mode, s):
